@@ -58,73 +58,77 @@ def run(tier, corrupt=False):
             src, accepted, rejected = prepare_world(wt, progs, types)
             acc = {p["name"] for p in accepted}
             kept = [r for r in recs if r["prog"] in acc]
-            cases, meta = [], []
-            for r in kept:
-                acts = [dict(h["act"]) for h in r["hist"]]
-                cases.append({"kind": "mut", "prog": r["prog"], "obj": r["obj"], "salt": 0, "actions": acts})
-                meta.append((r, "constructed"))
-                if any(a["op"] == "mutate_arg" for a in acts):
-                    # the caller's iterable need not be a list: byte-sized integer arrays are also passed as a bytearray
-                    cases.append({"kind": "mut", "prog": r["prog"], "obj": r["obj"], "salt": 0, "actions": acts, "arg_kind": "bytearray"})
-                    meta.append((r, "constructed from bytearray"))
-                cases.append({"kind": "mut", "prog": r["prog"], "from_bytes": r["bytes"], "actions": [a for a in acts if a["op"] != "mutate_arg"]})
-                meta.append((r, "deserialized"))
-            # instances whose serialization is REFUSED (case data left None) must not be changed by the attempt either
-            seen_variants = set()
-            for r in kept:
-                def none_variants(o, path=()):
-                    for k_, v_ in o.items():
-                        if isinstance(v_, dict):
-                            if k_.endswith("_data"):
-                                yield path + (k_,)
-                            yield from none_variants(v_, path + (k_,))
-                for pth in none_variants(r["obj"]):
-                    o2 = json.loads(json.dumps(r["obj"]))
-                    cur = o2
-                    for k_ in pth[:-1]:
-                        cur = cur[k_]
-                    cur[pth[-1]] = "None"
-                    sig = json.dumps(o2, sort_keys=True)
-                    if sig in seen_variants:
-                        continue
-                    seen_variants.add(sig)
-                    cases.append({"kind": "mut", "prog": r["prog"], "obj": o2, "salt": 0, "actions": [{"op": "serialize", "path": [], "name": "", "how": ""}]})
-                    meta.append((dict(r, obj=o2), "constructed, case data " + ".".join(pth) + " left None"))
-            imp, results = run_drivers_parallel(src, wt, accepted, types, cases)
-            if imp:
-                v.violation("generated package not importable", imp.strip().splitlines()[-1], {"trace": imp})
-                results = []
+            # batches bound the memory: results carry a projection and a serialization per step (the thorough tier had reached 26 GB)
             n = nsteps = 0
-            for (r, how), c, o in zip(meta, cases, results):
-                n += 1
-                if "harness_error" in o:
-                    raise MachineryError(o["harness_error"])
-                if o["ctor_exc"]:
-                    continue        # constructibility is C02's business
-                init = o["initial"]
-                if init["proj_after_serialize"] != init["proj"] or init.get("repr_changed_by_serialize"):
-                    v.violation(f"{r['prog']} ({how}) serialize changes the instance", f"serializing changed the instance: {short(init['proj'])} -> {short(init['proj_after_serialize'])}",
-                                {"prog": r["prog"], "how": how, "obj": r["obj"], "initial": init})
-                if corrupt and n == 12 and o["steps"]:
-                    o["steps"][-1]["ser"] = [0] + (o["steps"][-1]["ser"] if isinstance(o["steps"][-1]["ser"], list) else [])
-                base = f"{r['prog']} ({how})"
-                for name, kind in _kinds(init["proj"], []):
-                    if kind not in ("tuple", "NoneType"):
-                        v.violation(f"{base} array field {name} is a {kind}", f"array field {name} of a {how} instance is a {kind}, not a tuple",
-                                    {"prog": r["prog"], "how": how, "obj": r["obj"], "field": name, "kind": kind})
-                for si, st in enumerate(o["steps"]):
-                    nsteps += 1
-                    a = st["action"]
-                    hist = " ; ".join(f"{x['op']}({'.'.join(x['path'] + [x['name']])}{',' + x['how'] if x['how'] else ''})" for x in c["actions"][:si + 1])
-                    case = {"prog": r["prog"], "how": how, "obj": r["obj"], "actions": c["actions"][:si + 1], "observed": st, "initial": init}
-                    if st["exc"].startswith("HARNESS"):
-                        raise MachineryError(st["exc"])
-                    if a["op"] == "setattr" and st["exc"] != "AttributeError":
-                        v.violation(f"{base} {hist}", f"assignment to {'.'.join(a['path'] + [a['name']])} raised {st['exc'] or 'nothing'} instead of AttributeError", case)
-                    if st["proj"] != init["proj"] or st["proj_after_serialize"] != init["proj"]:
-                        v.violation(f"{base} {hist}", f"the instance changed: {short(st['proj'])} (was {short(init['proj'])})", case)
-                    elif st["ser"] != init["ser"]:
-                        v.violation(f"{base} {hist}", f"serializing the same instance again gave {st['ser']} (first time {init['ser']})", case)
+            seen_variants = set()
+            BATCH = 40000
+            for b0 in range(0, len(kept), BATCH):
+                batch = kept[b0:b0 + BATCH]
+                cases, meta = [], []
+                for r in batch:
+                    acts = [dict(h["act"]) for h in r["hist"]]
+                    cases.append({"kind": "mut", "prog": r["prog"], "obj": r["obj"], "salt": 0, "actions": acts})
+                    meta.append((r, "constructed"))
+                    if any(a["op"] == "mutate_arg" for a in acts):
+                        # the caller's iterable need not be a list: byte-sized integer arrays are also passed as a bytearray
+                        cases.append({"kind": "mut", "prog": r["prog"], "obj": r["obj"], "salt": 0, "actions": acts, "arg_kind": "bytearray"})
+                        meta.append((r, "constructed from bytearray"))
+                    cases.append({"kind": "mut", "prog": r["prog"], "from_bytes": r["bytes"], "actions": [a for a in acts if a["op"] != "mutate_arg"]})
+                    meta.append((r, "deserialized"))
+                # instances whose serialization is REFUSED (case data left None) must not be changed by the attempt either
+                for r in batch:
+                    def none_variants(o, path=()):
+                        for k_, v_ in o.items():
+                            if isinstance(v_, dict):
+                                if k_.endswith("_data"):
+                                    yield path + (k_,)
+                                yield from none_variants(v_, path + (k_,))
+                    for pth in none_variants(r["obj"]):
+                        o2 = json.loads(json.dumps(r["obj"]))
+                        cur = o2
+                        for k_ in pth[:-1]:
+                            cur = cur[k_]
+                        cur[pth[-1]] = "None"
+                        sig = json.dumps(o2, sort_keys=True)
+                        if sig in seen_variants:
+                            continue
+                        seen_variants.add(sig)
+                        cases.append({"kind": "mut", "prog": r["prog"], "obj": o2, "salt": 0, "actions": [{"op": "serialize", "path": [], "name": "", "how": ""}]})
+                        meta.append((dict(r, obj=o2), "constructed, case data " + ".".join(pth) + " left None"))
+                imp, results = run_drivers_parallel(src, wt, accepted, types, cases)
+                if imp:
+                    v.violation("generated package not importable", imp.strip().splitlines()[-1], {"trace": imp})
+                    results = []
+                for (r, how), c, o in zip(meta, cases, results):
+                    n += 1
+                    if "harness_error" in o:
+                        raise MachineryError(o["harness_error"])
+                    if o["ctor_exc"]:
+                        continue        # constructibility is C02's business
+                    init = o["initial"]
+                    if init["proj_after_serialize"] != init["proj"] or init.get("repr_changed_by_serialize"):
+                        v.violation(f"{r['prog']} ({how}) serialize changes the instance", f"serializing changed the instance: {short(init['proj'])} -> {short(init['proj_after_serialize'])}",
+                                    {"prog": r["prog"], "how": how, "obj": r["obj"], "initial": init})
+                    if corrupt and n == 12 and o["steps"]:
+                        o["steps"][-1]["ser"] = [0] + (o["steps"][-1]["ser"] if isinstance(o["steps"][-1]["ser"], list) else [])
+                    base = f"{r['prog']} ({how})"
+                    for name, kind in _kinds(init["proj"], []):
+                        if kind not in ("tuple", "NoneType"):
+                            v.violation(f"{base} array field {name} is a {kind}", f"array field {name} of a {how} instance is a {kind}, not a tuple",
+                                        {"prog": r["prog"], "how": how, "obj": r["obj"], "field": name, "kind": kind})
+                    for si, st in enumerate(o["steps"]):
+                        nsteps += 1
+                        a = st["action"]
+                        hist = " ; ".join(f"{x['op']}({'.'.join(x['path'] + [x['name']])}{',' + x['how'] if x['how'] else ''})" for x in c["actions"][:si + 1])
+                        case = {"prog": r["prog"], "how": how, "obj": r["obj"], "actions": c["actions"][:si + 1], "observed": st, "initial": init}
+                        if st["exc"].startswith("HARNESS"):
+                            raise MachineryError(st["exc"])
+                        if a["op"] == "setattr" and st["exc"] != "AttributeError":
+                            v.violation(f"{base} {hist}", f"assignment to {'.'.join(a['path'] + [a['name']])} raised {st['exc'] or 'nothing'} instead of AttributeError", case)
+                        if st["proj"] != init["proj"] or st["proj_after_serialize"] != init["proj"]:
+                            v.violation(f"{base} {hist}", f"the instance changed: {short(st['proj'])} (was {short(init['proj'])})", case)
+                        elif st["ser"] != init["ser"]:
+                            v.violation(f"{base} {hist}", f"serializing the same instance again gave {st['ser']} (first time {init['ser']})", case)
     cov = dict(stats)
     cov.update({"traces_validated_against_impl": n, "actions_checked": nsteps, "history_depth": hd, "programs": len(progs),
                 "samples": [{"prog": kept[0]["prog"], "hist": [h["act"] for h in kept[0]["hist"]]}, {"prog": kept[-1]["prog"], "hist": [h["act"] for h in kept[-1]["hist"]]}],
